@@ -60,6 +60,17 @@ SHAPES = [
     ("(u8,u8,u8)", "u8"), ("(u8,u8,u8,u8,u8)",), ("Vec<Vec<u8>>", "u8"), ("Option<Option<u8>>", "Option<u8>"), ("Vec<(u8,u8)>", "u8"),
     ("Option<(String,u8)>", "String"), ("&[String]", "&str"), ("(char,bool)", "char"), ("(String,)", "String"),
 ]
+T["&u64"] = ("&u64", "d_u64", "{x}")
+# parameters written as patterns (destructured tuple / tuple struct, reference pattern): (declaration, type key, how the
+# body rebuilds a reference to the argument for the value it returns)
+PSHAPES = [
+    (("(p0, p1): (u8, u8)", "(u8,u8)", "&(p0, p1)"), ("a1: u8", "u8", "&a1")),
+    (("a0: u8", "u8", "&a0"), ("(p0, p1): (u8, u8)", "(u8,u8)", "&(p0, p1)")),
+    (("&n: &u64", "&u64", "&&n"), ("a1: u8", "u8", "&a1")),
+    (("W(w0, w1): W", "W", "&W(w0, w1)"), ("a1: u8", "u8", "&a1")),
+    (("(p0, p1): (u8, u8)", "(u8,u8)", "&(p0, p1)"),),
+    (("(p0, (p1, p2)): (u8, (u8, u8))", "(u8,(u8,u8))", "&(p0, (p1, p2))"), ("&n: &u64", "&u64", "&&n")),
+]
 # methods: receiver kind + further args
 METHODS = [("&self", ()), ("&self", ("u8",)), ("&self", ("u8", "u8")), ("&self", ("String",)), ("self", ("u8",)), ("&mut self", ("u8",)), ("&self", ("&str", "u8"))]
 
@@ -96,6 +107,32 @@ for asy in (False, True):
             body += f"{ind}}}\n"
         out.append(f"fn run_{name}(ctx: &mut ShapeCtx) {{\n{loops}{body}}}")
         sig = "(" + ", ".join(sh) + ")"
+        entries.append(f'    Shape {{ name: "{name}", signature: "{sig}", is_async: {str(asy).lower()}, is_method: false, run: run_{name} }},')
+    for ps in PSHAPES:
+        sid += 1
+        name = f"{'ap' if asy else 'sp'}{sid}"
+        params = ", ".join(d for (d, _, _) in ps)
+        refs = ", ".join(r for (_, _, r) in ps)
+        out.append(f"#[{mac}]\npub {a}fn {name}({params}) -> String {{ exec(); format!(\"{{:?}}\", ({refs},)) }}")
+        loops = ""
+        for i, (_, t, _) in enumerate(ps):
+            loops += f"    let dom{i} = {T[t][1]}(ctx.thorough);\n"
+        body = ""
+        ind = "    "
+        for i, _ in enumerate(ps):
+            body += f"{ind}for x{i} in dom{i}.iter() {{\n"
+            ind += "    "
+        args = ", ".join(T[t][2].format(x=f"x{i}") for i, (_, t, _) in enumerate(ps))
+        encargs = ", ".join(("&" + T[t][2].format(x=f"x{i}")) for i, (_, t, _) in enumerate(ps))
+        naive = " + &".join(f"naive(&format!(\"{{:?}}\", {T[t][2].format(x=f'x{i}')}))" for i, (_, t, _) in enumerate(ps))
+        body += f"{ind}let want = format!(\"{{:?}}\", ({encargs},));\n"
+        body += f"{ind}let got = {w(f'{name}({args})')};\n"
+        body += f"{ind}ctx.observe(&want, &got, String::new() + &{naive});\n"
+        for i in range(len(ps)):
+            ind = ind[:-4]
+            body += f"{ind}}}\n"
+        out.append(f"fn run_{name}(ctx: &mut ShapeCtx) {{\n{loops}{body}}}")
+        sig = "(" + ", ".join(d for (d, _, _) in ps) + ")"
         entries.append(f'    Shape {{ name: "{name}", signature: "{sig}", is_async: {str(asy).lower()}, is_method: false, run: run_{name} }},')
     for (recv, rest) in METHODS:
         sid += 1
